@@ -93,7 +93,8 @@ pub fn gen(stream: &str, tier: &str, seed: u64, out: &mut dyn Write) -> bool {
                 let s = tb.schema_of(e);
                 for k in 0..reps {
                     let a = if k == 0 { DynMsg::new(s, e.idx, false) } else { value(&mut r, s, e) };
-                    let b = if k == 1 { DynMsg::new(s, e.idx, false) } else { value(&mut r, s, e) };
+                    let mut b = if k == 1 { DynMsg::new(s, e.idx, false) } else { value(&mut r, s, e) };
+                    if k > 1 && r.chance(1, 2) { crate::shared::msgverbs::align_oneofs(&mut r, s, &a, &mut b, 1); }
                     cx.cat(e, &a, &b);
                     cx.mrg(e, &a, &bytes_of(e, &b));
                 }
